@@ -9,7 +9,9 @@ pub mod c02;
 pub mod c03;
 pub mod c04;
 pub mod c05;
+pub mod c06;
 pub mod c07;
+pub mod c08;
 pub mod c12;
 pub mod c13;
 
@@ -21,7 +23,9 @@ pub fn run(ctx: &Ctx) -> i32 {
         "C03" => c03::run(ctx),
         "C04" => c04::run(ctx),
         "C05" => c05::run(ctx),
+        "C06" => c06::run(ctx),
         "C07" => c07::run(ctx),
+        "C08" => c08::run(ctx),
         "C12" => c12::run(ctx),
         "C13" => c13::run(ctx),
         other => {
@@ -40,7 +44,9 @@ pub fn replay(ctx: &Ctx, v: &Value) -> i32 {
         "C03" => c03::replay(ctx, case),
         "C04" => c04::replay(ctx, case),
         "C05" => c05::replay(ctx, case),
+        "C06" => c06::replay(ctx, case),
         "C07" => c07::replay(ctx, case),
+        "C08" => c08::replay(ctx, case),
         "C12" => c12::replay(ctx, case),
         "C13" => c13::replay(ctx, case),
         other => {
